@@ -4,6 +4,7 @@
 #include <cstring>
 #include <map>
 #include <string>
+#include <unistd.h>
 static std::map<std::string, unsigned long long> g_in;
 static bool g_loaded = false;
 static void load() {
@@ -25,5 +26,13 @@ bool in_bool(int k) { return get("bool", k) != 0; }
 unsigned char in_uchar(int k) { return (unsigned char)get("uchar", k); }
 double in_double(int k) { unsigned long long u = get("double", k); double d; memcpy(&d, &u, 8); return d; }
 void VX_ENTRY(void);
+/* observable streams (model/vx_runtime.c has the symbolic counterpart): a fresh sink is a temporary file; what the code under test
+ * writes to the process's standard output between vx_io_begin/vx_io_end is captured by redirecting descriptor 1 */
+void* vx_io_new(void) { return tmpfile(); }
+static int g_saved1 = -1; static FILE* g_cap = nullptr;
+void vx_io_begin(void) { fflush(stdout); g_saved1 = dup(1); g_cap = tmpfile(); dup2(fileno(g_cap), 1); }
+long vx_io_end(void) { fflush(stdout); long n = (long)lseek(1, 0, SEEK_CUR); dup2(g_saved1, 1); close(g_saved1); return n; }
+long vx_io_written(void* f) { fflush((FILE*)f); return (long)lseek(fileno((FILE*)f), 0, SEEK_END); }
+long vx_io_text(void* f, void* buf, long n) { fflush((FILE*)f); return (long)pread(fileno((FILE*)f), buf, (size_t)n, 0); }
 }
 int main() { setvbuf(stdout, 0, _IONBF, 0); VX_ENTRY(); printf("VX-DONE\n"); fflush(stdout); _Exit(0); /* harness statics are not torn down (CBMC does not either) */ }
